@@ -4,12 +4,21 @@ are stored and read back unchanged.
 Anchors: breezy/tag.py (_reconcile_tags, InterTags.merge/_merge_to,
 MemoryTags.merge_to), breezy/bzr/tag.py (BasicTags._serialize_tag_dict,
 _deserialize_tag_dict, _set_tag_dict/get_tag_dict), breezy/git/branch.py
-(InterTagsFromGitToLocalGit, InterTagsFromGitToNonGit, LocalGitTagDict).
+(InterTagsFromGitToLocalGit, InterTagsFromGitToNonGit, LocalGitTagDict._set_tag_dict /
+set_tag, GitTags.get_tag_dict).
 
 Model (lean/BreezyVerif/Model/C24.lean): Python dicts as insertion-ordered
 association lists; `reconcile` is the loop of `_reconcile_tags`, `merge` is
 `InterTags.merge` with the optional master branch; a byte-level bencode model
-of flat byte-string dicts with strict UTF-8 validity of the keys.
+of flat byte-string dicts with strict UTF-8 validity of the keys; local git tag
+stores: raw tag refs + a classification of revision ids by the destination
+repository (commit it has / ghost = not a git revision id / absent = git
+revision id of a commit it does not have), `gitSetTagDict` = the loop of
+`LocalGitTagDict._set_tag_dict` (per-tag ghost skip, deletion of the refs not
+named), `gitRead` = `get_tag_dict` (broken refs are not shown), `gitMergeTo` =
+merge_to from a non-git source, `gitToGit` = the loop of
+`InterTagsFromGitToLocalGit.merge`.  The model variant `strict` (does
+`_set_tag_dict` refuse absent commits?) is selected by probing the real code.
 
 T2 levels (all on every run):
   A  `_reconcile_tags` on generated dict pairs x overwrite x selector — exact,
@@ -17,22 +26,29 @@ T2 levels (all on every run):
   B  `MemoryTags.merge_to` (in-memory store);
   C  `Tags.merge_to` on real 2a branches (BasicTags), target unbound / bound to
      a master branch, ignore_master on/off, branches re-opened before reading;
-  D  git stores: git->git (InterTagsFromGitToLocalGit), git->bzr
-     (InterTagsFromGitToNonGit), bzr->git (generic InterTags over
-     LocalGitTagDict) with lightweight tags on existing commits — compared as
-     sorted maps / sets;
+  D  git stores, symbolic revision ids resolved against real repositories
+     (deterministic commits): memory->git and bzr->git (generic InterTags over
+     LocalGitTagDict: readable tags, RAW refs read through dulwich, updates,
+     conflicts against `gitMergeTo`), `_set_tag_dict` directly on a git store
+     (`gitSetTagDict`), git->git (`gitToGit`), git->bzr (`reconcile`).  Source
+     values: commits the destination has, ghosts, absent commits (a commit only
+     the source repository has, made-up shas); the git destination may hold
+     broken tag refs before the merge;
   E  serialisation: `_serialize_tag_dict` byte-for-byte against the model,
      `_deserialize_tag_dict` on valid, mutated and malformed byte strings
      (accept/reject + error kind), store/re-open/read on a real branch.
 Oracle: the statement's laws evaluated directly on the real outputs
 (`_laws`), input dicts not mutated, `deserialize(serialize(d)) == d`,
-`reopen().get_tag_dict() == d`.
+`reopen().get_tag_dict() == d`.  For a git destination a definition the
+repository cannot hold must leave the destination's definition of that name
+alone (and every other tag obeys the statement as usual).
+Replay (`--replay`) re-runs level C and D cases on freshly built stores.
 
 T1: the branch structure of the loop body of `_reconcile_tags` is regenerated
 from the source (`stepKindGen`) and proved equal to the model's `stepKind`
 (Props/C24T1.lean).
 
-Mutants this was built against (see the final report for results):
+Mutants this was built against:
   M1 `result = dest_dict` (copy dropped: destination aliasing, nothing stored)
   M2 `elif name not in result or overwrite` -> `elif name not in result`
   M3 `elif ... or overwrite` -> `and overwrite` (source-only tags dropped)
@@ -44,6 +60,30 @@ Mutants this was built against (see the final report for results):
   M9 `_merge_to`: `if result != dest_dict` -> `if updates and conflicts == []`
   M10 git InterTagsFromGitToNonGit: `elif tag_name not in result or overwrite` -> `elif overwrite`
   H1 (harmless) loop rewritten with `dest_dict.copy()` and `in`/`[]` instead of `.get`
+ second round (git stores; all caught by the oracle with a concrete case, H2 clean):
+  M11 LocalGitTagDict._set_tag_dict: `suppress(GhostTagsNotSupported)` hoisted out of the loop
+      (the first ghost ends the loop: later tags lost, later destination-only tags deleted)
+  M12 `_set_tag_dict`: deletion of the refs not named in the dict dropped
+  M13 `_set_tag_dict`: `extra.remove(name)` dropped (every pre-existing tag deleted)
+  M14 InterTagsFromGitToLocalGit: `except KeyError: continue` -> `break`
+  M15 InterTagsFromGitToLocalGit: `elif overwrite or ref_name not in refs` -> `elif overwrite`
+  M17 InterTagsFromGitToLocalGit: conflict tuple (name, target, source)
+  M18 `_set_tag_dict`: `return` at the first ghost
+  M19 InterTagsFromGitToLocalGit: `refs.get(ref) == unpeeled` -> `ref in refs and not overwrite`
+  M20 InterTagsFromGitToLocalGit: `except NotCommitError: continue` -> `break` (needs a source ref to a blob)
+  M21 InterTagsFromGitToNonGit._merge_to: `except NotCommitError: continue` -> `break`
+  M22 LocalGitBranch._iter_tag_refs: `except KeyError: continue` -> `break` (tags after a broken ref vanish)
+  H2 (harmless) `_set_tag_dict` with `extra.discard` and try/except/continue per tag
+
+Finding families on the unchanged /repo (classifier `_git_family`):
+  `git-set-tag-absent-commit-breaks-ref` (model variant strict=F): `_set_tag_dict` ->
+      `set_tag` writes a ref to a commit the repository does not have; overwriting a
+      readable destination tag with such a definition makes the tag unreadable
+      (theorem `git_merge_absent_loses_witness`);
+  `git-git-annotated-tag-object-not-copied`: InterTagsFromGitToLocalGit writes the
+      unpeeled sha of an annotated tag without copying the tag object (oracle only:
+      the model knows lightweight tags);
+  `git-git-annotated-vs-lightweight-same-commit-reported`: conflict (n, v, v).
 """
 import ast
 import os
@@ -58,23 +98,34 @@ THEOREMS = [
     "updates_exact", "selector_respected", "reconcile_never_loses", "reconcile_keys",
     "merge_target_pointwise", "merge_master_pointwise", "merge_conflicts_exact",
     "merge_updates_pointwise", "merge_noop",
-    "bencode_dict_roundtrip", "tags_roundtrip", "sortKV_same_map",
+    "gitSetTagDict_pointwise", "git_merge_read_pointwise", "git_merge_reports", "git_merge_follows_statement",
+    "git_merge_source_only_added", "git_merge_dest_only_kept", "git_merge_ghost_leaves_dest",
+    "git_merge_never_loses_partial", "git_merge_absent_loses_witness",
+    "g2g_refs_pointwise", "g2g_updates_pointwise", "g2g_conflicts_exact", "g2g_read_pointwise", "g2g_never_loses",
+    "bencode_dict_roundtrip", "tags_roundtrip", "sortKV_same_map", "serialize_injective",
+    "set_tag_roundtrip", "delete_tag_roundtrip",
 ]
 T1_EQUALITY_THEOREMS = ["stepKind_gen_eq"]
 RULE = ("dict pairs over a per-case universe of 1..7 unicode names (each name: source-only / "
         "dest-only / same / differing / absent) x overwrite x selector (None / subset / none); "
         "non-trivial = source non-empty and at least one name is source-only, differing, "
-        "or filtered by the selector; serialisation cases: non-trivial = dict non-empty")
+        "or filtered by the selector; git-store cases additionally draw every source value from "
+        "{commit the destination has, ghost, absent commit} and may plant broken tag refs in the "
+        "destination; serialisation cases: non-trivial = dict non-empty")
 ASSUMPTIONS = [
     "a Python str tag name is represented by its UTF-8 encoding (names with lone surrogates are "
     "outside the model; the real code raises UnicodeEncodeError before storing — run as an excluded-input stream)",
     "tag values are bytes (never None), dict keys are unique",
+    "git stores: lightweight tags; revision ids are either `git-v1:<40 lowercase hex>` or do not start with `git-` "
+    "(a malformed `git-v1:` id makes dulwich raise ValueError inside _set_tag_dict — not generated)",
 ]
 TRUSTED = [
     "fastbencode (external, compiled) is modelled for flat byte-string dicts only; every generated dict and "
     "every malformed byte string is compared with the model on this run; inputs whose decoding leaves the "
     "fragment (int/list/dict values) are counted as `unsupported` and not compared",
-    "git stores are compared as sorted maps on lightweight tags that point to existing commits",
+    "git stores: dulwich's refs container and object store are used as they are (raw refs are read and broken "
+    "refs planted through dulwich); the classification of a revision id by the destination repository "
+    "(commit / ghost / absent) is computed by the harness from how the repositories were built",
 ]
 
 NAME_ATOMS = ["", "a", "b", "ab", "a b", "v1.0", "é", "日本", "😀", "\x00", "a\n", ":", ",", "e", "d1:a",
@@ -228,22 +279,44 @@ def _spec(src, dst, ow, sel):
     return res, upd, conf, why
 
 
-def _laws(ctx, case, src, dst, ow, sel, result, updates, conflicts, what, reports=True):
+def _laws(ctx, case, src, dst, ow, sel, result, updates, conflicts, what, reports=True,
+          storable=None, family=None, listed=True):
     """the property's own statement checked on the stored result and, when
-    `reports`, on the returned (updates, conflicts)"""
+    `reports`, on the returned (updates, conflicts).
+
+    `storable(value)`: can the destination store hold the value at all?  A git
+    repository cannot point a tag at a revision it does not have; the statement
+    then cannot ask for the tag to be added / overwritten, what it does ask is
+    that such a definition leaves the destination's definition of that name (or
+    its absence) alone and does not disturb any other tag.  Whether the name is
+    listed in `updates` is not checked for such a definition (`listed=False`:
+    the transfer is known not to list it).
+    `family(name, value)`: classifier for committed known findings, computed
+    from the failing tag; one violation is reported per family so that a known
+    family never hides another failure of the same case."""
     res, upd, conf, why = _spec(src, dst, ow, sel)
-    bad = None
+    d = dict(dst)
+    bad = {}
     names = list(dict.fromkeys(list(res) + list(result) + list(updates if reports else []) + [c[0] for c in (conflicts if reports else [])]))
     for name in names:
-        got = (result.get(name),) + ((updates.get(name), sorted(c for c in set(conflicts) if c[0] == name)) if reports else ())
-        exp = (res.get(name),) + ((upd.get(name), sorted(c for c in conf if c[0] == name)) if reports else ())
+        ev, eu, reason = res.get(name), upd.get(name), why.get(name, "tag must not appear: it is in neither dict or not selected")
+        free_update = False
+        if storable is not None and ev is not None and not storable(ev):
+            ev = d.get(name)
+            free_update = True
+            reason = ("the destination store cannot hold the source definition %r: the destination's definition "
+                      "of this name must stay as it was" % (res.get(name),))
+        gu = updates.get(name) if reports else None
+        if free_update:
+            gu = eu = None
+        got = (result.get(name),) + ((gu, sorted(c for c in set(conflicts) if c[0] == name)) if reports else ())
+        exp = (ev,) + ((eu, sorted(c for c in conf if c[0] == name)) if reports else ())
         if got != exp:
-            bad = "tag %r: %s; expected (value, update, conflicts)=%r got %r" % (
-                name, why.get(name, "tag must not appear: it is in neither dict or not selected"), exp, got)
-            break
-    if bad:
-        ctx.violation(case, "%s: %s" % (what, bad))
-    return bad is None
+            fam = family(name, res.get(name), d.get(name)) if family else None
+            bad.setdefault(fam, "tag %r: %s; expected (value, update, conflicts)=%r got %r" % (name, reason, exp, got))
+    for fam, msg in bad.items():
+        ctx.violation(case, "%s: %s" % (what, msg), family=fam)
+    return not bad
 
 
 def _raised(ctx, case, what, e):
@@ -321,6 +394,65 @@ def usort(items):
     return sorted(items, key=lambda kv: kv[0].encode("utf-8"))
 
 
+def _unhex_items(items):
+    return None if items is None else [(k, bytes.fromhex(v)) for k, v in items]
+
+
+def _run_c_case(ctx, st, case):
+    """run one level-C case on real 2a branches; -> (model line, impl output) or None"""
+    src, dst, mst = _unhex_items(case["src"]), _unhex_items(case["dst"]), _unhex_items(case["master"])
+    ow, sel, ign, same = case["ow"], case["sel"], case["ignore_master"], case["same"]
+    bound = mst is not None
+    tname = "btgt" if bound else "tgt"
+    st.put("src", src)
+    st.put(tname, dst)
+    if bound:
+        st.put("master", mst)
+    sb = st.open("src")
+    tb = sb if same else st.open(tname)
+    if same:
+        dst = src
+    try:
+        updates, conflicts = sb.tags.merge_to(tb.tags, overwrite=ow, ignore_master=ign, selector=mk_selector(sel))
+    except Exception as e:
+        _raised(ctx, case, "BasicTags merge_to", e)
+        return None
+    after_t = st.read("src" if same else tname)
+    after_m = st.read("master") if bound else None
+    if st.read("src") != dict(src):
+        ctx.violation(case, "merge_to changed the source branch's tags")
+    # oracle on the stored state (re-opened branches)
+    if not same:
+        both = bound and not ign
+        _laws(ctx, case, src, dst, ow, sel, after_t, updates, conflicts, "BasicTags target", reports=not both)
+        if both:
+            _laws(ctx, case, src, mst, ow, sel, after_m, updates, conflicts, "BasicTags master", reports=False)
+            # the reported updates / conflicts are the union over target and master
+            _r1, u1, c1, _w = _spec(src, dst, ow, sel)
+            _r2, u2, c2, _w = _spec(src, mst, ow, sel)
+            if dict(updates) != {**u1, **u2} or set(conflicts) != (c1 | c2):
+                ctx.violation(case, "bound target: reported (updates, conflicts) are not the union over target and master: "
+                              "%r %r expected %r %r" % (updates, conflicts, {**u1, **u2}, c1 | c2))
+        elif bound and after_m != dict(mst):
+            ctx.violation(case, "ignore_master=True but the master's tags changed")
+    elif updates or conflicts or after_t != dict(src):
+        ctx.violation(case, "merge_to onto the same branch reported/changed something")
+    ctx.count("C:conflicts" if conflicts else "C:noconflict")
+    ssrc, sdst = usort(src), usort(dst)
+    line = "merge %s T %s %s %s %s %s %s" % (
+        tf(same), tf(ow), tf(ign), enc_sel(sel), enc_items(ssrc), enc_items(sdst),
+        "~" if mst is None else enc_items(usort(mst)))
+    out = "%s|%s|%s|%s" % (
+        sort_field(enc_items(after_t.items())), "~" if after_m is None else sort_field(enc_items(after_m.items())),
+        enc_items(updates.items()), ",".join(sorted(enc_conf(c) for c in conflicts)) or "-")
+    return line, out
+
+
+def _canon_c(m):
+    f = m.split("|")
+    return "|".join([sort_field(f[0]), sort_field(f[1]), f[2], f[3]]) if len(f) == 4 else m
+
+
 def _level_c(ctx, n):
     st = _Stores()
     cases, lines, outs = [], [], []
@@ -336,77 +468,52 @@ def _level_c(ctx, n):
         case = dict(level="C", src=[[k, v.hex()] for k, v in src], dst=[[k, v.hex()] for k, v in dst],
                     master=None if mst is None else [[k, v.hex()] for k, v in mst], ow=ow, sel=sel,
                     ignore_master=ign, same=same)
-        tname = "btgt" if bound else "tgt"
-        st.put("src", src)
-        st.put(tname, dst)
-        if bound:
-            st.put("master", mst)
-        sb = st.open("src")
-        tb = sb if same else st.open(tname)
-        if same:
-            dst = src
-        try:
-            updates, conflicts = sb.tags.merge_to(tb.tags, overwrite=ow, ignore_master=ign, selector=mk_selector(sel))
-        except Exception as e:
-            _raised(ctx, case, "BasicTags merge_to", e)
-            continue
-        after_t = st.read("src" if same else tname)
-        after_m = st.read("master") if bound else None
-        if st.read("src") != dict(src):
-            ctx.violation(case, "merge_to changed the source branch's tags")
-        # oracle on the stored state (re-opened branches)
-        if not same:
-            both = bound and not ign
-            _laws(ctx, case, src, dst, ow, sel, after_t, updates, conflicts, "BasicTags target", reports=not both)
-            if both:
-                _laws(ctx, case, src, mst, ow, sel, after_m, updates, conflicts, "BasicTags master", reports=False)
-                # the reported updates / conflicts are the union over target and master
-                _r1, u1, c1, _w = _spec(src, dst, ow, sel)
-                _r2, u2, c2, _w = _spec(src, mst, ow, sel)
-                if dict(updates) != {**u1, **u2} or set(conflicts) != (c1 | c2):
-                    ctx.violation(case, "bound target: reported (updates, conflicts) are not the union over target and master: "
-                                  "%r %r expected %r %r" % (updates, conflicts, {**u1, **u2}, c1 | c2))
-            elif bound and after_m != dict(mst):
-                ctx.violation(case, "ignore_master=True but the master's tags changed")
-        elif updates or conflicts or after_t != dict(src):
-            ctx.violation(case, "merge_to onto the same branch reported/changed something")
+        r = _run_c_case(ctx, st, case)
         ctx.case(case, nontrivial=nontrivial(src, dst, sel))
         ctx.count("C:" + ("same" if same else ("bound-ign" if bound and ign else "bound" if bound else "unbound")))
-        ctx.count("C:conflicts" if conflicts else "C:noconflict")
+        if r is None:
+            continue
         cases.append(case)
-        ssrc, sdst = usort(src), usort(dst)
-        lines.append("merge %s T %s %s %s %s %s %s" % (
-            tf(same), tf(ow), tf(ign), enc_sel(sel), enc_items(ssrc), enc_items(sdst),
-            "~" if mst is None else enc_items(usort(mst))))
-        outs.append("%s|%s|%s|%s" % (
-            sort_field(enc_items(after_t.items())), "~" if after_m is None else sort_field(enc_items(after_m.items())),
-            enc_items(updates.items()), ",".join(sorted(enc_conf(c) for c in conflicts)) or "-"))
+        lines.append(r[0])
+        outs.append(r[1])
     replies = ctx.model(lines)
     for c, l, o, m in zip(cases, lines, outs, replies):
         ctx.traces += 1
-        f = m.split("|")
-        if len(f) == 4:
-            m = "|".join([sort_field(f[0]), sort_field(f[1]), f[2], f[3]])
+        m = _canon_c(m)
         if m != o:
             ctx.mismatch(c, o, m, line=l)
 
 
 # ---------------------------------------------------------------- level D (git stores)
+# Values of level-D cases are symbols, resolved against freshly built stores (so a
+# case can be replayed): c0..c3 = commits both git repositories have, x = a commit
+# only the source git repository g1 has, g:<hex> = a ghost (bytes that are not a git
+# revision id), a:<sha> = a well-formed git revision id of an object nobody has.
+GHOST_ATOMS = [b"joe@example.com-20200101000000-notpushedyet01", b"rev-1", b"", b"svn-v4:uuid:trunk:7",
+               b"\xff\xfe", b"hg-v1:" + b"ab" * 20, b"z" * 70]
+ABSENT_ATOMS = ["12" * 20, "0" * 39 + "1", "f" * 40, "deadbeef" * 5]
+TAG_PREFIX = b"refs/tags/"
+KINDS = ["mem->git", "bzr->git", "git->git", "git->bzr", "set-git", "bzr->git", "mem->git", "git->git"]
+
+
 class _GitStores:
     def __init__(self):
         from breezy.controldir import ControlDir, format_registry
         base = env.fresh_dir("c24g")
         wt = ControlDir.create_standalone_workingtree(os.path.join(base, "g1"),
                                                       format=format_registry.make_controldir("git"))
-        self.revs = []
-        for i in range(4):
+
+        def commit(i):
             with open(os.path.join(base, "g1", "f%d" % i), "w") as f:
                 f.write(str(i))
             wt.add(["f%d" % i])
-            self.revs.append(wt.commit("c%d" % i))
+            return wt.commit("c%d" % i, timestamp=1500000000 + i, timezone=0, committer="T <t@example.com>")
+        self.revs = [commit(i) for i in range(4)]
         self.paths = dict(g1=os.path.join(base, "g1"), g2=os.path.join(base, "g2"), bz=os.path.join(base, "bz"))
         wt.branch.controldir.sprout(self.paths["g2"])
+        self.extra = commit(9)          # only in g1
         ControlDir.create_branch_convenience(self.paths["bz"], format=format_registry.make_controldir("2a"))
+        self.strict = self._probe_strict()
 
     def open(self, nm):
         from breezy.branch import Branch
@@ -420,40 +527,319 @@ class _GitStores:
     def read(self, nm):
         return self.open(nm).tags.get_tag_dict()
 
+    # raw tag refs of a git repository, through dulwich only (independent of breezy's tag code)
+    def raw(self, nm):
+        refs = self.open(nm).repository._git.refs
+        return {k[len(TAG_PREFIX):].decode("utf-8"): b"git-v1:" + refs[k]
+                for k in refs.allkeys() if k.startswith(TAG_PREFIX)}
+
+    def put_raw(self, nm, name, revid):
+        self.open(nm).repository._git.refs[TAG_PREFIX + name.encode("utf-8")] = revid[len(b"git-v1:"):]
+
+    def has_object(self, nm, revid):
+        return revid[len(b"git-v1:"):] in self.open(nm).repository._git.object_store
+
+    def annotate(self, nm, name, revid):
+        """turn the tag into an annotated one (`git tag -a`): a tag object + a ref to it"""
+        from dulwich.objects import Commit, Tag
+        repo = self.open(nm).repository._git
+        t = Tag()
+        t.tagger = b"T <t@example.com>"
+        t.message = b"annotated\n"
+        t.name = name.encode("utf-8")
+        t.object = (Commit, revid[len(b"git-v1:"):])
+        t.tag_time = 1500000000
+        t.tag_timezone = 0
+        repo.object_store.add_object(t)
+        repo.refs[TAG_PREFIX + name.encode("utf-8")] = t.id
+
+    def resolve(self, sym):
+        if sym == "blob":       # an object every repository has, but not a commit
+            from dulwich.objects import Blob
+            return b"git-v1:" + Blob.from_string(b"0").id
+        if sym == "x":
+            return self.extra
+        if sym[0] == "c":
+            return self.revs[int(sym[1:])]
+        if sym[0] == "g":
+            return bytes.fromhex(sym[2:])
+        if sym[0] == "a":
+            return b"git-v1:" + sym[2:].encode("ascii")
+        raise ValueError(sym)
+
+    def _probe_strict(self):
+        """does LocalGitTagDict._set_tag_dict refuse to write a ref to a commit the
+        repository does not have (model variant `strict`)?  Probed on the real code so
+        that the model follows the code whichever way that question is settled."""
+        name = TAG_PREFIX + b"c24-probe"
+        b = self.open("g2")
+        try:
+            with b.lock_write():
+                b.tags._set_tag_dict({"c24-probe": b"git-v1:" + b"12" * 20})
+        except Exception:
+            pass
+        refs = self.open("g2").repository._git.refs
+        if name in refs.allkeys():
+            del refs[name]
+            return False
+        return True
+
+
+_GS = []
+
+
+def _git_stores():
+    """one set of git/bzr stores per process (building them costs ~0.5 s)"""
+    if not _GS:
+        _GS.append(_GitStores())
+    return _GS[0]
+
+
+def _git_name(r):
+    return r.choice(GIT_ATOMS) if r.random() < 0.8 else r.choice(GIT_ATOMS) + "-" + r.choice(GIT_ATOMS)
+
+
+def _sym_commit(r):
+    return "c%d" % r.randrange(4)
+
+
+def _sym_ghost(r):
+    return "g:" + r.choice(GHOST_ATOMS).hex()
+
+
+def _sym_absent(r):
+    if r.random() < 0.5:
+        return "x"
+    if r.random() < 0.7:
+        return "a:" + r.choice(ABSENT_ATOMS)
+    return "a:" + "".join(r.choice("0123456789abcdef") for _ in range(39)) + "7"
+
+
+def gen_git_case(rng, kind):
+    """-> case dict (symbolic values).  Per name of a small universe: where it is
+    defined (source-only / destination-only / same / differing / neither) and, for
+    a git destination, whether the destination has a broken ref of that name."""
+    s_git, t_git = kind.startswith("git"), kind.endswith("git")
+
+    def src_val():
+        r = rng.random()
+        if s_git:
+            return _sym_commit(rng) if r < 0.7 else "x"
+        if not t_git:
+            return _sym_commit(rng)
+        return _sym_commit(rng) if r < 0.55 else _sym_ghost(rng) if r < 0.8 else _sym_absent(rng)
+
+    def dst_val():
+        if t_git or rng.random() < 0.7:
+            return _sym_commit(rng)
+        return _sym_ghost(rng)      # a native store holds any bytes
+
+    n = rng.randrange(1, 7)
+    uni = []
+    while len(uni) < n:
+        x = _git_name(rng)
+        if x not in uni:
+            uni.append(x)
+    src, dst, hidden = [], [], []
+    for name in uni:
+        c = rng.choice(["src", "src", "dst", "same", "diff", "diff", "none"])
+        if c in ("src", "same", "diff"):
+            v = src_val()
+            src.append([name, v])
+            if c == "same" and v[0] == "c":
+                dst.append([name, v])
+            elif c == "diff":
+                w = dst_val()
+                dst.append([name, w])
+        elif c == "dst":
+            dst.append([name, dst_val()])
+        if t_git and name not in [k for k, _ in dst] and rng.random() < 0.12:
+            hidden.append([name, "a:" + rng.choice(ABSENT_ATOMS)])
+    rng.shuffle(src)
+    rng.shuffle(dst)
+    r = rng.random()
+    sel = None if r < 0.5 else sorted(x for x in uni if rng.random() < 0.65) if r < 0.92 else []
+    case = dict(level="D", kind=kind, src=src, dst=dst, hidden=hidden, ow=rng.random() < 0.5, sel=sel)
+    if s_git:
+        # refs of the source repository that are not readable tags (they point to a blob / to a
+        # missing object) and annotated tags (ref -> tag object -> commit)
+        snames = [k for k, _ in src]
+        pool = [k for k in uni if k not in snames] + ["noise-1", "noise-é"]
+        case["noise"] = [[k, rng.choice(["blob", "blob", "a:" + rng.choice(ABSENT_ATOMS)])]
+                         for k in pool if rng.random() < 0.3]
+        case["annot"] = [k for k in snames if rng.random() < 0.2]
+    return case
+
+
+def _git_family(gs, case):
+    """known-finding classifier, computed from the failing tag and the state it was left in:
+    the tag is no longer readable in the git destination because its ref now names an object the
+    repository does not have —
+     * `git-set-tag-absent-commit-breaks-ref`: written by `_set_tag_dict`/`set_tag` for a source
+       definition that is a well-formed git revision id of a commit the destination lacks;
+     * `git-git-annotated-tag-object-not-copied`: written by InterTagsFromGitToLocalGit for an
+       annotated source tag (the ref names the tag object, which was not copied);
+    or the tag is readable and unchanged but was reported —
+     * `git-git-annotated-vs-lightweight-same-commit-reported`: InterTagsFromGitToLocalGit compares
+       raw refs, so an annotated source tag and a lightweight destination tag on the SAME commit
+       are reported as a conflict (n, v, v)."""
+    def fam(name, want, had):
+        if want is None or not want.startswith(b"git-v1:"):
+            return None
+        now = gs.raw("g2").get(name)
+        if (case["kind"] == "git->git" and name in case.get("annot", []) and want == had
+                and gs.read("g2").get(name) == had):
+            return "git-git-annotated-vs-lightweight-same-commit-reported"
+        if now is None or gs.has_object("g2", now) or name in gs.read("g2"):
+            return None
+        if case["kind"] == "git->git":
+            if name in case.get("annot", []) and now != want:
+                return "git-git-annotated-tag-object-not-copied"
+            return None
+        if not gs.strict and now == want and want not in gs.revs:
+            return "git-set-tag-absent-commit-breaks-ref"
+        return None
+    return fam
+
+
+def _run_git_case(ctx, gs, case):
+    """run one level-D case on real stores; -> (model line, impl output) or None"""
+    kind, ow, sel = case["kind"], case["ow"], case["sel"]
+    src = [(k, gs.resolve(v)) for k, v in case["src"]]
+    dst = [(k, gs.resolve(v)) for k, v in case["dst"]]
+    hidden = [(k, gs.resolve(v)) for k, v in case["hidden"]]
+    t = "g2" if kind.endswith("git") else "bz"
+    commits = set(gs.revs)
+    storable = commits.__contains__ if t == "g2" else None
+    absent = sorted({v for _k, v in src + hidden if v.startswith(b"git-v1:") and v not in commits})
+    fam = _git_family(gs, case) if t == "g2" else None
+    # ---- set the stores up
+    gs.put(t, dst)
+    if t == "g2" and gs.raw(t) != dict(dst):
+        # (whatever the previous case left behind, broken refs included, must be gone)
+        ctx.violation(case, "raw tag refs after LocalGitTagDict._set_tag_dict(d) are not d: %r" % (gs.raw(t),))
+        return None
+    for k, v in hidden:
+        gs.put_raw(t, k, v)
+    if gs.read(t) != dict(dst):
+        ctx.violation(case, "tag store did not read back what _set_tag_dict stored: %r" % (gs.read(t),))
+        return None
+    refs0 = usort(dst + hidden)
+    enc_c, enc_a = (",".join(hx(v) for v in sorted(commits)), ",".join(hx(v) for v in absent) or "-")
+    if kind == "set-git":
+        # `_set_tag_dict(src)` directly on the git store: stored and read back, except what git cannot hold
+        tb = gs.open(t)
+        try:
+            with tb.lock_write():
+                tb.tags._set_tag_dict(dict(src))
+        except Exception as e:
+            _raised(ctx, case, "LocalGitTagDict._set_tag_dict", e)
+            return None
+        after, raw = gs.read(t), gs.raw(t)
+        # oracle: replacing the whole dictionary = overwrite-merge into a store that keeps only the
+        # names of `src` (a name that cannot be stored keeps its previous readable definition)
+        keep = [(k, v) for k, v in dst if k in dict(src)]
+        _laws(ctx, case, src, keep, True, None, after, {}, [], "git _set_tag_dict", reports=False,
+              storable=storable, family=fam)
+        line = "gitset %s %s %s %s %s" % (tf(gs.strict), enc_c, enc_a, enc_items(refs0), enc_items(src))
+        return line, "%s|%s" % (sort_field(enc_items(after.items())), sort_field(enc_items(raw.items())))
+    if kind.startswith("mem"):
+        from breezy.tag import MemoryTags
+        sd = dict(src)
+        stags = MemoryTags(sd)
+        msrc = src
+    else:
+        s = "g1" if kind.startswith("git") else "bz"
+        gs.put(s, src)
+        if s == "g1":
+            for k, v in case.get("noise", []):
+                gs.put_raw(s, k, gs.resolve(v))
+            for k in case.get("annot", []):
+                gs.annotate(s, k, dict(src)[k])
+        if gs.read(s) != dict(src):
+            ctx.violation(case, "source tag store does not read back the tags it was given: %r" % (gs.read(s),))
+            return None
+        stags = gs.open(s).tags
+        msrc = usort(src)
+    tb = gs.open(t)
+    try:
+        updates, conflicts = stags.merge_to(tb.tags, overwrite=ow, selector=mk_selector(sel))
+    except Exception as e:
+        _raised(ctx, case, "merge_to %s" % kind, e)
+        return None
+    after, all_updates = gs.read(t), dict(updates)
+    if (list(sd.items()) != src) if kind.startswith("mem") else (gs.read(s) != dict(src)):
+        ctx.violation(case, "merge_to changed the source's tags")
+    lsrc = src
+    if kind == "git->git" and hidden:
+        # InterTagsFromGitToLocalGit works on the raw refs: a name whose target ref is broken is,
+        # for git, defined in the target (and not touched without overwrite).  The statement speaks
+        # about readable definitions only; such names are left to the correspondence with the model.
+        broken = {k for k, _v in hidden}
+        lsrc = [(k, v) for k, v in src if k not in broken]
+        after = {k: v for k, v in after.items() if k not in broken}
+        updates = {k: v for k, v in updates.items() if k not in broken}
+        ctx.count("D:git->git-broken-target-ref-excluded-from-oracle")
+    if kind == "git->git" and ow and case.get("annot"):
+        # with overwrite an annotated source tag replaces a lightweight destination tag on the same
+        # commit: the ref changes, the tag dictionary does not; listing it in `updates` is accepted
+        d0 = dict(dst)
+        same = {k for k in case["annot"] if k in updates and updates[k] == d0.get(k)}
+        if same:
+            updates = {k: v for k, v in updates.items() if k not in same}
+            ctx.count("D:git->git-annotated-replaces-lightweight-same-commit")
+    _laws(ctx, case, lsrc, dst, ow, sel, after, updates, conflicts, "merge_to " + kind,
+          storable=storable, family=fam)
+    after, updates = gs.read(t), all_updates
+    out = [sort_field(enc_items(after.items()))]
+    if t == "g2":
+        out.append(sort_field(enc_items(gs.raw(t).items())))
+    out += [sort_field(enc_items(updates.items())), ",".join(sorted(enc_conf(c) for c in conflicts)) or "-"]
+    if kind == "git->git" and case.get("annot"):
+        # the model knows lightweight tags only; annotated source tags are left to the oracle
+        ctx.count("D:git->git-annotated-not-compared-with-model")
+        return None
+    if kind == "git->git":
+        line = "g2g %s %s %s %s %s" % (tf(ow), enc_sel(sel), enc_c, enc_items(refs0), enc_items(msrc))
+    elif t == "g2":
+        line = "gitmerge %s %s %s %s %s %s %s" % (tf(gs.strict), tf(ow), enc_sel(sel), enc_c, enc_a,
+                                                  enc_items(refs0), enc_items(msrc))
+    else:
+        line = "rec %s %s %s %s" % (tf(ow), enc_sel(sel), enc_items(msrc), enc_items(usort(dst)))
+    return line, "|".join(out)
+
+
+def _git_nontrivial(gs, case):
+    src = [(k, gs.resolve(v)) for k, v in case["src"]]
+    dst = [(k, gs.resolve(v)) for k, v in case["dst"]]
+    return nontrivial(src, dst, case["sel"])
+
 
 def _level_d(ctx, n):
-    gs = _GitStores()
+    gs = _git_stores()
+    ctx.count("D:set_tag-refuses-absent-commit:" + tf(gs.strict))
     cases, lines, outs = [], [], []
-    combos = [("g1", "g2"), ("g1", "bz"), ("bz", "g2")]
     for i in range(n):
-        s, t = combos[i % 3]
-        src, dst, sel, classes = gen_pair(ctx.rng, names=lambda r: r.choice(GIT_ATOMS) if r.random() < 0.8 else r.choice(GIT_ATOMS) + "-" + r.choice(GIT_ATOMS),
-                                          values=lambda r: r.choice(gs.revs), maxn=5)
-        ow = ctx.rng.random() < 0.5
-        case = dict(level="D", kind="%s->%s" % (s, t), src=[[k, v.hex()] for k, v in src],
-                    dst=[[k, v.hex()] for k, v in dst], ow=ow, sel=sel)
-        gs.put(s, src)
-        gs.put(t, dst)
-        if gs.read(s) != dict(src) or gs.read(t) != dict(dst):
-            ctx.violation(case, "git/bzr tag store did not read back what _set_tag_dict stored: %r %r" % (gs.read(s), gs.read(t)))
+        case = gen_git_case(ctx.rng, KINDS[i % len(KINDS)])
+        r = _run_git_case(ctx, gs, case)
+        ctx.case(case, nontrivial=_git_nontrivial(gs, case))
+        ctx.count("D:" + case["kind"])
+        for _k, v in case["src"]:
+            ctx.count("D:srcval:" + ("commit" if v[0] == "c" else "ghost" if v[0] == "g" else "absent"))
+        if case["hidden"]:
+            ctx.count("D:dest-has-broken-ref")
+        if case.get("noise"):
+            ctx.count("D:git-source-has-unreadable-refs")
+        if case.get("annot"):
+            ctx.count("D:git-source-has-annotated-tags")
+        if any(v[0] == "g" for _k, v in case["src"]) and len(case["src"]) + len(case["dst"]) > 1:
+            ctx.count("D:ghost-among-other-tags")
+        if r is None:
             continue
-        sb, tb = gs.open(s), gs.open(t)
-        try:
-            updates, conflicts = sb.tags.merge_to(tb.tags, overwrite=ow, selector=mk_selector(sel))
-        except Exception as e:
-            _raised(ctx, case, "git merge_to %s->%s" % (s, t), e)
-            continue
-        after = gs.read(t)
-        if gs.read(s) != dict(src):
-            ctx.violation(case, "merge_to changed the source's tags")
-        _laws(ctx, case, src, dst, ow, sel, after, updates, conflicts, "git %s->%s" % (s, t))
-        ctx.case(case, nontrivial=nontrivial(src, dst, sel))
-        ctx.count("D:%s->%s" % (s, t))
-        ctx.count("D:conflicts" if conflicts else "D:noconflict")
         cases.append(case)
-        lines.append("rec %s %s %s %s" % (tf(ow), enc_sel(sel), enc_items(usort(src)), enc_items(usort(dst))))
-        outs.append("%s|%s|%s" % (sort_field(enc_items(after.items())), sort_field(enc_items(updates.items())),
-                                  ",".join(sorted(enc_conf(c) for c in conflicts)) or "-"))
+        lines.append(r[0])
+        outs.append(r[1])
+        ctx.count("D:conflicts" if not r[1].endswith("|-") else "D:noconflict")
     replies = ctx.model(lines)
     for c, l, o, m in zip(cases, lines, outs, replies):
         ctx.traces += 1
@@ -682,11 +1068,18 @@ def _corpus(ctx):
 
 
 def run(ctx, scale=1):
-    _corpus(ctx)
-    _level_ab(ctx, ctx.pick(4000, 40000) * scale)
-    _level_e(ctx, ctx.pick(600, 6000) * scale, ctx.pick(60, 400))
-    _level_c(ctx, ctx.pick(500, 5000) * scale)
-    _level_d(ctx, ctx.pick(300, 3000) * scale)
+    import time
+    wall = ctx.extra.setdefault("wall_by_level_s", {})
+
+    def timed(name, fn, *a):
+        t0 = time.time()
+        fn(ctx, *a)
+        wall[name] = round(wall.get(name, 0) + time.time() - t0, 1)
+    timed("corpus", _corpus)
+    timed("AB", _level_ab, ctx.pick(4000, 40000) * scale)
+    timed("E", _level_e, ctx.pick(600, 6000) * scale, ctx.pick(60, 400))
+    timed("C", _level_c, ctx.pick(300, 3000) * scale)
+    timed("D", _level_d, ctx.pick(240, 2400) * scale)
 
 
 def widen(ctx):
@@ -696,7 +1089,22 @@ def widen(ctx):
 def replay(ctx, case):
     from breezy import tag as _tag
     lvl = case.get("level")
-    if lvl in ("A", "B", "C", "D"):
+    if lvl == "D":
+        # store-level replay on freshly built repositories
+        gs = _git_stores()
+        r = _run_git_case(ctx, gs, case)
+        if r is None:
+            return dict(case=case, impl=None, model=None, oracle_failures=[v["what"] for v in ctx.violations])
+        m = ctx.model([r[0]])[0]
+        return dict(case=case, impl=r[1], model="|".join(sort_field(x) for x in m.split("|")), line=r[0],
+                    oracle_failures=[v["what"] for v in ctx.violations])
+    if lvl == "C":
+        r = _run_c_case(ctx, _Stores(), case)
+        if r is None:
+            return dict(case=case, impl=None, model=None, oracle_failures=[v["what"] for v in ctx.violations])
+        return dict(case=case, impl=r[1], model=_canon_c(ctx.model([r[0]])[0]), line=r[0],
+                    oracle_failures=[v["what"] for v in ctx.violations])
+    if lvl in ("A", "B"):
         src = [(k, bytes.fromhex(v)) for k, v in case["src"]]
         dst = [(k, bytes.fromhex(v)) for k, v in case["dst"]]
         sel, ow = case["sel"], case["ow"]
@@ -705,10 +1113,12 @@ def replay(ctx, case):
         impl = "%s|%s|%s" % (enc_items(result.items()), enc_items(updates.items()),
                              ",".join(enc_conf(c) for c in conflicts) or "-")
         model = ctx.model(["rec %s %s %s %s" % (tf(ow), enc_sel(sel), enc_items(src), enc_items(dst))])[0]
-        note = None
-        if lvl in ("C", "D"):
-            note = "store-level case replayed at the _reconcile_tags level; run the check for the store-level run"
-        return dict(case=case, impl=impl, model=model, note=note,
+        if lvl == "B":
+            from breezy.tag import MemoryTags
+            dt = MemoryTags(dict(dst))
+            u2, c2 = MemoryTags(dict(src)).merge_to(dt, overwrite=ow, selector=mk_selector(sel))
+            _laws(ctx, case, src, dst, ow, sel, dt.get_tag_dict(), u2, list(c2), "MemoryTags.merge_to")
+        return dict(case=case, impl=impl, model=model,
                     oracle_failures=[v["what"] for v in ctx.violations])
     from breezy.bzr.tag import BasicTags
     bt = BasicTags(None)
